@@ -40,6 +40,7 @@ class Parser:
 
     def __init__(self, F, fn, sym):
         self.F, self.fn, self.sym = F, fn, sym
+        self.classifiers = control_byte_classifiers(F)
         self.apdu = ("param", [n for p in fn["params"] for n, _ in H.pat_bindings(p)][0])
         self.nodes = {}
         for g in [fn] + [F.fn(q) for q in sym.inlined if F.fn(q) is not None]:
@@ -60,7 +61,7 @@ class Parser:
         return t[0] == "proj" and t[2] == UNKNOWN and t[3] == 0 and self.is_instr(t[1])
 
     def is_cb(self, t):
-        return t[0] == "call" and t[1].startswith(CB_REF) and t[2] == (("field", self.apdu, "p1"),)
+        return t[0] == "call" and (t[1].startswith(CB_REF) or t[1] in self.classifiers) and t[2] == (("field", self.apdu, "p1"),)
 
     # ---- slices
     def slice_of(self, t):
@@ -321,6 +322,16 @@ def region(P, atoms):
 _CACHE = {}
 
 
+def control_byte_classifiers(F):
+    """the functions that decide whether P1 is a control byte: TryFrom<u8> for ControlByte and any other hand-written
+    u8 -> Option/Result<ControlByte> (`ControlByte::from_p1`); they are not expanded, their table is a clause of its own"""
+    out = []
+    for f in F.fns:
+        if (f.get("pv") or "user") == "user" and f.get("inputs") == ["u8"] and re.search(r"^core::(option::Option|result::Result)<ctap1::ControlByte\b", f.get("output") or ""):
+            out.append(f["path"])
+    return out
+
+
 def analyse(F, fn):
     """decoded paths of the parser; cached per function text (the parser is the same in every feature configuration)"""
     cb_fn = F.trait_impl_fn(CB_REF, "try_from")
@@ -329,7 +340,7 @@ def analyse(F, fn):
 
     def inline(path, node):
         f = holder["sym"].body_for(path)
-        return f is not None and (f.get("pv") or "user") == "user" and path != cb_path
+        return f is not None and (f.get("pv") or "user") == "user" and path != cb_path and path not in control_byte_classifiers(F)
 
     def is_effect(callee, args, node, st):
         if callee == "<index>":
@@ -365,7 +376,7 @@ def analyse(F, fn):
         d["cb"] = None
         d["cb_term"] = cbs[0][1] if cbs else None
         if cbs:
-            d["cb"] = sym.lookup(p, cbs[0][1]) == S.OK
+            d["cb"] = sym.lookup(p, cbs[0][1]) in (S.OK, S.SOME)
         data_atoms = []
         for i, a in enumerate(p.atoms):
             if cla_t is not None and VS.mentions(a[1], cla_t) or ins_t is not None and VS.mentions(a[1], ins_t) or a in cbs or (a[0] in ("is", "isnot") and P.is_instr(a[1])):
@@ -533,7 +544,7 @@ def run(ctx):
                            "%s.%s is taken from %s, the raw message format says data[%d..%s]" % (name, fname, S.show(fl.get(fname))[:70] if fname in fl else "nothing", want[0][0], want[1][0] if not want[1][1] else ""), cfg=cfg, where=where)
             if name == "Authenticate":
                 cb = fl.get("control_byte")
-                ctx.oblige("C08|ins2|field|control_byte", d["cb_term"] is not None and cb == sym.proj(d["cb_term"], S.OK, 0), "control_byte is not the validated P1 (%s)" % S.show(cb)[:60], cfg=cfg, where=where)
+                ctx.oblige("C08|ins2|field|control_byte", d["cb_term"] is not None and cb in (sym.proj(d["cb_term"], S.OK, 0), sym.proj(d["cb_term"], S.SOME, 0)), "control_byte is not the validated P1 (%s)" % S.show(cb)[:60], cfg=cfg, where=where)
             ctx.sample({"cfg": cfg, "request": name, "when": [S.show_atom(a) for a in d["p"].atoms][-4:]}, limit=6)
         known = {STATUS + "ClassNotSupported", STATUS + "IncorrectDataParameter", STATUS + "InstructionNotSupportedOrInvalid", "ctap1::Request::Version", "ctap1::Request::Register", "ctap1::Request::Authenticate"}
         for i, d in enumerate(live):
@@ -558,6 +569,20 @@ def run(ctx):
                 ctx.oblige("C08|control-byte|table", acc == {3, 7, 8} and rej == {STATUS + "IncorrectDataParameter"}, "control bytes accepted: %s, rejection: %s" % (sorted(acc), rej), cfg=cfg, where=cb["sp"])
             except FT.Unreadable as e:
                 ctx.violation("C08|control-byte|unreadable", "UNREADABLE-IMPL: %s" % e, cfg=cfg)
+        for cpath in control_byte_classifiers(F):
+            if cb is not None and cpath == cb["path"]:
+                continue
+            cf = F.fn(cpath)
+            try:
+                tab = FT.value_table(F, cf, range(256))
+                acc = set()
+                for b, r in tab.items():
+                    kind, pay = FT.classify(r)
+                    if kind == "ok" or (kind == "value" and r is not None and r[0] == "ctor" and r[1] == S.SOME):
+                        acc.add(b)
+                ctx.oblige("C08|control-byte|table|" + cpath, acc == {3, 7, 8}, "%s accepts the control bytes %s" % (cpath, sorted(acc)), cfg=cfg, where=cf["sp"])
+            except FT.Unreadable as e:
+                ctx.violation("C08|control-byte|unreadable|" + cpath, "UNREADABLE-IMPL: %s" % e, cfg=cfg)
         # 8. Command<S> delegates to the view
         f2 = F.trait_impl_fn(FN2, "try_from")
         good = False
